@@ -405,6 +405,7 @@ pub proof fn lemma_store_all(cs: Seq<ChunkV>, full_at: int, pushed: Seq<Row>, w:
 // [C15] (i) completeness at a flush point: after any sequence of pushes followed by one flush, the
 // rows written by the emitted full chunks plus the flush subset are exactly [0, total_pushed) and
 // each holds the value pushed for it -- for every chunk size and every number of pushes.
+// [C15]
 pub proof fn lemma_flush_complete(k: ItemType, full_at: int, pushes: Seq<Row>, w: int)
     requires 0 < full_at, 0 <= w, uniform(pushes, w),
     ensures
@@ -551,6 +552,7 @@ pub open spec fn sys_inv(s: Sys, w: int) -> bool {
 // [C15] one step of push / flush / reset: (i) right after a flush -- and after a reset for the array
 // that is closed -- the array holds exactly the recorded rows with their values, whatever the relation
 // of the number of rows to the chunk size; (ii) no step removes or changes a row already in an array.
+// [C15]
 pub proof fn lemma_step(s: Sys, op: Op, w: int)
     requires sys_inv(s, w), op_ok(op, w),
     ensures
